@@ -138,6 +138,10 @@ class Machine(object):
                 pass
             elif op == "res":
                 raise R2Result(("t", tc.tid, tuple(rec)))
+            elif op == "cancel":
+                for it in self.pending.pop(st[2], []):
+                    it.done = True
+                    it.err = ("exc", "BatchCancelledError")
             elif op == "mk":
                 self.make_leaf(T, st[2], made)
             elif op == "iv":
@@ -376,7 +380,7 @@ class Machine(object):
                 it.err = ("exc", "AssertionError")
 
 
-SKIP = frozenset(["bt", "with:Xp", "with:Xr", "with:Xq", "dd", "ddirty", "dbi"])
+SKIP = frozenset(["cancel", "bt", "with:Xp", "with:Xr", "with:Xq", "dd", "ddirty", "dbi"])
 
 
 def lockstep(prog, r, conv_parent=False):
